@@ -109,6 +109,22 @@ func c04Relations(c *fw.Ctx, ap *policy.Addressing, mode, addr string) (accepted
 			break
 		}
 	}
+	// (3b) a plain address (letters, digits, . + - and one @) that is accepted stays accepted in any
+	// letter case
+	plain := strings.Count(addr, "@") == 1
+	for _, ch := range addr {
+		if !(ch >= 'a' && ch <= 'z' || ch >= 'A' && ch <= 'Z' || ch >= '0' && ch <= '9' || strings.ContainsRune(".+-@", ch)) {
+			plain = false
+		}
+	}
+	if plain {
+		for _, v := range []string{strings.ToUpper(addr), strings.ToLower(addr), swapCase(addr)} {
+			if _, err := ap.NewRecipient(v); err != nil {
+				c.Violate("rel|"+mode+"|case-variant-refused", fmt.Sprintf("address %q is accepted (mailbox %q) but %q, which differs only in letter case, is refused: %v", addr, n, v, err), cas)
+				break
+			}
+		}
+	}
 	// (4) +extension (plain addresses only: no quoting)
 	if !strings.ContainsAny(addr, "\"\\") {
 		at := strings.LastIndex(addr, "@")
@@ -230,6 +246,11 @@ func c04Structured() []string {
 		for _, d := range domains {
 			out = append(out, l+"@"+d, "@r.test:"+l+"@"+d)
 		}
+	}
+	// every letter of the alphabet in upper case, in the local part and in the domain (case folding
+	// is per letter)
+	for L := 'A'; L <= 'Z'; L++ {
+		out = append(out, fmt.Sprintf("u%cx@m%cx.test", L, L), fmt.Sprintf("u%cx@d.test", L), fmt.Sprintf("ux@m%cx.test", L), fmt.Sprintf("u%cx@d.test", L+32))
 	}
 	// addresses at the length limits (local part 64, domain about 250, labels 63): the name is long
 	// in every naming mode, and longer than the line limits some protocols recommend
